@@ -36,11 +36,12 @@ LEVEL_TEXT = ('static analysis: (D1) match_ref_to_sample interpreted on literal 
               "before chr10) gives every bin the loss / gain formula of its own chromosome's tiles, in row order; an off-target bin without "
               'sample coverage still gets a weight in range (D4, literal variant). (D9) edge_losses / edge_gains are the documented rational '
               'functions of target size, gap and insert size in every order case (exact identities over symbols). Which bins count as null '
-              'coverage (left out of the centring): drop_low_coverage on literal tables (C15 LOW rule). (CLI) the `fix` command line(s), through '
-              'a model of argparse built from the declarations in commands.py and the real _cmd_ body interpreted with readers, library step and '
-              'writers stubbed: target / antitarget / reference files in their roles, each --no-gc / --no-edge / --no-rmask switch alone, '
-              'cluster, sample id, PAR genome and smoothing fraction reach do_fix as given. Does not decide rolling-median values, depth-scale '
-              'invariance or weight monotonicity.')
+              'coverage (left out of the centring): drop_low_coverage on literal tables (C15 LOW rule). D1 also matches one reference twice in '
+              "one interpreter, its rows reversed in between and its metadata carried over: the second match is by the rows' current coordinates."
+              ' (CLI) the `fix` command line(s), through a model of argparse built from the declarations in commands.py and the real _cmd_ body '
+              'interpreted with readers, library step and writers stubbed: target / antitarget / reference files in their roles, each --no-gc / '
+              '--no-edge / --no-rmask switch alone, cluster, sample id, PAR genome and smoothing fraction reach do_fix as given. Does not decide '
+              'rolling-median values, depth-scale invariance or weight monotonicity.')
 TECHNIQUE = "dominance (must-pass-through); abstract interpretation over order positions and over index-provenance tags; structural dataflow of the windowed correction; role-flow"
 
 FIX = "cnvlib.fix"
